@@ -73,8 +73,9 @@ func c13(c *core.Check) {
 		"M2-read-filter":        "miss: Skip with the spec wire type; hit: exactly one element; field-level miss skips the field",
 		"M3-zero-only-required": "the zero-value arm exists only for required fields",
 		"M4-propagation":        "child structs receive the sub-mask bound by the innermost enclosing query",
+		"M4-mask-before-write":  "a child that is handed a sub-mask receives it on every path to its Write",
 	})
-	for _, k := range []string{"M1-count-loop", "M1-loop-bound", "M2-write-filter", "M2-read-filter", "M3-zero-only-required", "M4-propagation"} {
+	for _, k := range []string{"M1-count-loop", "M1-loop-bound", "M2-write-filter", "M2-read-filter", "M3-zero-only-required", "M4-propagation", "M4-mask-before-write"} {
 		c.Min(k, 1)
 	}
 	c13keyKinds(c)
@@ -657,4 +658,31 @@ func c13propagation(agg *aggregate, r *rendered, fd *ast.FuncDecl) {
 		}
 	}
 	visit(fd.Body)
+	// every struct child that is handed a mask at all must get it on every path to its Write: a child written without it
+	// keeps whatever sub-mask an earlier Write (or an earlier position of the same Write) left on it
+	g := rules.CFG(r.P.Info, fd.Body, nil)
+	masked := map[string]bool{}
+	for _, call := range rules.NodeCalls(fd.Body) {
+		if recv, name, _, ok := rules.SelectorCall(call); ok && (name == "Set_FieldMask" || name == "Pass_FieldMask") {
+			masked[recv] = true
+		}
+	}
+	for _, call := range rules.NodeCalls(fd.Body) {
+		recv, name, wc, ok := rules.SelectorCall(call)
+		if !ok || name != "Write" || !masked[recv] || len(wc.Args) != 1 {
+			continue
+		}
+		agg.check("M4-mask-before-write", k)
+		missed, targets := rules.MustPass(g, func(x ast.Node) bool {
+			es, ok := x.(*ast.ExprStmt)
+			if !ok {
+				return false
+			}
+			rv, nm, _, ok := rules.SelectorCall(es.X)
+			return ok && rv == recv && (nm == "Set_FieldMask" || nm == "Pass_FieldMask")
+		}, func(x ast.Node) bool { return x == ast.Node(wc) })
+		if targets == 0 || len(missed) > 0 {
+			agg.fail("M4-mask-before-write", k, fmt.Sprintf("under [%s]: %s.Write can be reached without handing %s its sub-mask (the assignment is conditional): with no mask in effect the child is written under a stale sub-mask left by an earlier Write", r.R.Valuation, recv, recv))
+		}
+	}
 }
